@@ -2,7 +2,7 @@
 (C01, C03, C10, C11).  Contracts marked `bounded_only` are evaluated at run time
 around the real functions (layer B) and are NOT counted as proved until the
 flag is removed."""
-from pyvc.sorts import BOOL, INT, STR, ListSort, SetSort, OptSort
+from pyvc.sorts import BOOL, INT, STR, ListSort, SetSort, OptSort, MapSort
 from specs.xsm import Node, Trans, Ev, Act, Callable_
 
 BI = "xstate_statemachine.base_interpreter:BaseInterpreter."
@@ -13,14 +13,92 @@ TASKS = ["self._after_events", "self._after_threads", "self._pending_send_cancel
 
 
 def register(w):
-    @w.contract(BI + "_execute_transition", also=[SI + "_execute_transition_sync"], props=["C01", "C03", "C07"])
+    STATE_ALL = [A, "self._history", "self.context", "self.status", "self.output", "self.error", "self._action_depth",
+                 "self._event_queue", "self.g_accepted", *TASKS, "Flag.is_set", "Trans.target_str"]
+    Q0, ACC0 = "self._event_queue", "self.g_accepted"
+    APP0 = f"appended_only(old({Q0}), old({ACC0}), {Q0}, {ACC0})"
+
+    @w.contract(BI + "_execute_transition", props=["C01", "C03", "C07"])
     def _(c):
         c.bounded_only = True
         c.param("transition", Trans).param("event", Ev)
-        c.mod(A, "self._history", "self.context", "self.status", "self.output", "self.error", "self._action_depth", "self._event_queue", "self.g_accepted", *TASKS)
+        c.mod(*STATE_ALL)
         c.req(f"legal({A})", "transition != None and transition.source in " + A)
         c.ens(f"legal({A})", label="legal-after-transition")
         c.may_raise("Exception", ensures=[f"set_eq({A}, old({A}))"])
+
+    # ---- the synchronous transition step: exit -> actions -> enter as ONE transaction (C07 atomicity) ---------
+    @w.contract(SI + "_execute_transition_sync", props=["C07", "C01"])
+    def _(c):
+        c.param("transition", Trans).param("event", Ev)
+        c.mod(*STATE_ALL)
+        c.req("transition != None and transition.source != None and event != None")
+        c.req(f"forall[Node](lambda n: implies(n in {A}, n != None))")
+        c.req("ghost:self._is_processing")
+        c.ens(f"implies(old(transition.target_str) == None or old(transition.target_str) == '', set_eq({A}, old({A})))", label="targetless-transition-keeps-the-configuration")
+        c.ens(APP0, label="ghost:queue-append-only")
+        c.ens("status_reach(old(self.status), self.status)", label="status-moves-along-allowed-edges")
+        c.may_raise("Exception", ensures=[("configuration-unchanged-when-the-transition-aborts", f"set_eq({A}, old({A}))"), ("queue-append-only", "ghost:" + APP0),
+                                          ("status-moves-along-allowed-edges", "status_reach(old(self.status), self.status)")])
+        c.loop(0, inv=[]).loop(1, inv=[])
+
+    @w.contract(SI + "_process_single_transition", props=["C07", "C01"])
+    def _(c):
+        c.param("transition", Trans).param("event", Ev).param("target_state", Node)
+        c.mod(*STATE_ALL)
+        c.req("transition != None and transition.source != None and target_state != None and event != None")
+        c.req(f"forall[Node](lambda n: implies(n in {A}, n != None))")
+        c.req("ghost:self._is_processing")
+        c.ens(APP0, label="ghost:queue-append-only")
+        c.ens("status_reach(old(self.status), self.status)", label="status-moves-along-allowed-edges")
+        # whatever aborts the step (missing action / service, unresolvable history target, NotSupportedError ...):
+        # the configuration is exactly the one before the transition
+        # ghost bookkeeping of the rollback: which states had their timers/services cancelled, which were re-armed
+        c.ghost("exit_started", BOOL, init="False")
+        c.ghost("exitset", SetSort(Node))
+        c.ghost("rearmed", MapSort(Node, BOOL))
+        c.ghost("in_rearm", BOOL, init="False")
+        c.ghost("aborted", BOOL, init="False")
+        c.before("self._exit_states(sorted(list(states_to_exit), key=lambda s: (s.depth, s.id), reverse=True), event)",
+                 "exit_started = True", "exitset = states_to_exit")
+        c.before("self._active_state_nodes.clear()", "aborted = True")
+        c.after("self._active_state_nodes.update(snapshot_before_transition)", "in_rearm = True")
+        c.after("self._schedule_state_tasks(node)", "rearmed = store(rearmed, node, True)")
+        c.before("raise", "in_rearm = False")
+        c.ens("not final_aborted", label="ghost:an-aborted-transition-is-reported-not-swallowed")
+        c.may_raise("Exception", ensures=[
+            ("configuration-rolled-back-exactly", f"set_eq({A}, old({A}))"), ("queue-append-only", "ghost:" + APP0),
+            ("status-moves-along-allowed-edges", "status_reach(old(self.status), self.status)"),
+            # unless re-arming itself failed, every state whose timers were cancelled for the exit is re-armed
+            ("exited-states-timers-and-services-re-armed", f"ghost:implies(final_exit_started and not final_in_rearm, forall[Node](lambda n: implies(n in old({A}) and n in final_exitset, final_rearmed[n])))")])
+        c.loop(2, inv=["aborted and in_rearm and exit_started",
+                       f"set_eq({A}, old({A}))",
+                       "forall[int](lambda j: implies(0 <= j and j < _i and _seq[j] in exitset, rearmed[_seq[j]]))"])
+
+    @w.contract(SI + "_resolve_target_state_robustly", props=["C07"])
+    def _(c):
+        c.trusted = "assumed: resolves a target string to a state of the machine or raises (string search over the tree; bounded: C01/C09 drivers); may normalise transition.target_str"
+        c.no_runtime = True
+        c.param("transition", Trans).returns(Node)
+        c.mod("Trans.target_str")
+        c.ens("result != None")
+        c.may_raise("Exception")
+
+    @w.contract(BI + "_resolve_history_target", props=["C11"])
+    def _(c):
+        c.trusted = "assumed total with no effect on interpreter state: reads self._history (bounded: bounded.c11 checks what it returns)"
+        c.no_runtime = True
+        c.param("history_node", Node).returns(ListSort(Node))
+        c.ens("forall[int](lambda i: implies(0 <= i and i < len(result), result[i] != None))")
+        c.may_raise("Exception")
+
+    @w.contract(BI + "_schedule_state_tasks", props=["C08"])
+    def _(c):
+        c.trusted = "assumed frame: arms timers / starts services of one state (timer and actor tables only); a missing service raises"
+        c.no_runtime = True
+        c.param("state", Node)
+        c.mod(*TASKS)
+        c.may_raise("Exception")
 
     @w.contract(BI + "_process_event", also=[SI + "_process_event"], props=["C01", "C02"])
     def _(c):
@@ -43,17 +121,21 @@ def register(w):
         c.param("states_to_exit", ListSort(Node))
         c.mod("self._history")
 
-    @w.contract(SI + "_cancel_state_tasks", also=["xstate_statemachine.interpreter:Interpreter._cancel_state_tasks"], props=["C08"])
+    @w.contract("xstate_statemachine.interpreter:Interpreter._cancel_state_tasks", props=["C08"])
     def _(c):
-        c.trusted = "assumed frame: touches timer/task bookkeeping only (fields outside the modelled interpreter state)"
+        c.trusted = "assumed frame for the asyncio engine: delegates to TaskManager.cancel_by_owner (asyncio task table outside the modelled state)"
         c.param("state", Node)
         c.mod("self._after_events", "self._after_threads")
 
     # ---- running one action list (C07 containment) ----------------------------------------------------
     Q_, ACC_ = "self._event_queue", "self.g_accepted"
-    EFFECT = ["self.context", "self.status", "self.output", "self.error", "self._action_depth", *TASKS, Q_, ACC_]
+    EFFECT = ["self.context", "self.status", "self.output", "self.error", "self._action_depth", *TASKS, Q_, ACC_, "Flag.is_set"]
+    MONO_ = "forall[Flag](lambda f: implies(old(f.is_set), f.is_set))"          # cancellation flags are only ever set
     APPENDED = f"appended_only(old({Q_}), old({ACC_}), {Q_}, {ACC_})"
-    KEEP = ["status_reach(old(self.status), self.status)", "ghost:" + APPENDED]
+    AE_ = "self._after_events"
+    # running actions never arms an `after` timer (only entering a state does): the sync timer table can only lose entries
+    SHRINK = f"forall[str](lambda k: implies(k in {AE_}, k in old({AE_}) and {AE_}[k] == old({AE_})[k]))"
+    KEEP = ["status_reach(old(self.status), self.status)", "ghost:" + APPENDED, "ghost:" + SHRINK, "ghost:" + MONO_]
 
     def exec_actions_clauses(c):
         c.param("actions", ListSort(Act)).param("event", Ev)
@@ -65,6 +147,8 @@ def register(w):
         c.ens("self._action_depth == old(self._action_depth)", label="action-depth-restored")
         c.ens(KEEP[0], label="status-moves-along-allowed-edges")
         c.ens(APPENDED, label="ghost:queue-append-only")
+        c.ens(SHRINK, label="ghost:no-after-timer-armed-by-an-action")
+        c.ens(MONO_, label="ghost:no-cancellation-flag-cleared")
         # only configuration errors escape - never what a user action or a built-in raised (C07: contained, rest of the list skipped)
         for x in ("ImplementationMissingError", "NotSupportedError", "ActorSpawningError", "FactoryExc"):
             c.may_raise(x, ensures=["self._action_depth == old(self._action_depth)", *KEEP])
@@ -83,7 +167,7 @@ def register(w):
         c.before("return#3", "failed = True")
         c.ens("implies(not final_failed, final_nran == len(actions))", label="ghost:every-action-runs-unless-one-fails")
         c.ens("implies(final_failed, final_nran < len(actions))", label="ghost:a-failure-skips-the-rest-of-this-list-only")
-        c.loop(0, inv=["nran == _i", "not failed", "self._action_depth == old(self._action_depth)", KEEP[0], APPENDED])
+        c.loop(0, inv=["nran == _i", "not failed", "self._action_depth == old(self._action_depth)", KEEP[0], APPENDED, SHRINK, MONO_])
         for k in (1, 2, 3):
             c.loop(k, inv=[])
 
@@ -103,6 +187,8 @@ def register(w):
         c.req("ghost:self._is_processing")
         c.ens("self._action_depth == old(self._action_depth)", KEEP[0])
         c.ens(APPENDED, label="ghost:queue-append-only")
+        c.ens(SHRINK, label="ghost:no-after-timer-armed")
+        c.ens(MONO_, label="ghost:no-cancellation-flag-cleared")
         c.may_raise("Exception", ensures=["self._action_depth == old(self._action_depth)", *KEEP])
 
     @w.contract(SI + "_spawn_actor", also=["xstate_statemachine.interpreter:Interpreter._spawn_actor"], props=["C07", "C15"])
@@ -114,8 +200,9 @@ def register(w):
         c.defaults = {"on_complete": "None"}
         c.mod("self.context", *TASKS, Q_, ACC_)
         c.ens(APPENDED, label="ghost:queue-append-only")
-        c.may_raise("ActorSpawningError", ensures=["ghost:" + APPENDED])
-        c.may_raise("FactoryExc", ensures=["ghost:" + APPENDED])
+        c.ens(SHRINK, label="ghost:no-after-timer-armed")
+        c.may_raise("ActorSpawningError", ensures=["ghost:" + APPENDED, "ghost:" + SHRINK])
+        c.may_raise("FactoryExc", ensures=["ghost:" + APPENDED, "ghost:" + SHRINK])
 
     @w.contract(SI + "_is_async_callable", props=["C07"])
     def _(c):
@@ -135,17 +222,39 @@ def register(w):
         c.param("action_type", STR).returns(BOOL)
         c.ens("result == (action_type in BUILTIN_ACTION_ALIASES)", label="true-iff-alias-known")
 
-    @w.contract(BI + "_exit_states", also=[SI + "_exit_states"], props=["C01", "C03"])
-    def _(c):
+    INV_X = f"forall[Node](lambda n: (n in {A}) == (n in old({A}) and not exists[int](lambda k: 0 <= k and k < _i and states_to_exit[k] == n)))"
+
+    def exit_states_clauses(c):
         c.param("states_to_exit", ListSort(Node)).param("event", Ev)
         c.defaults = {"event": "None"}
-        c.mod(A, "self._history", "self.context", "self._action_depth", "self.status", "self.output", "self.error", *TASKS, Q_, ACC_)
+        c.mod(A, "self._history", "self.context", "self._action_depth", "self.status", "self.output", "self.error", *TASKS, Q_, ACC_, "Flag.is_set")
         c.req("forall[int](lambda i: implies(0 <= i and i < len(states_to_exit), states_to_exit[i] != None))")
         c.req("ghost:self._is_processing")        # exit actions run while an event is being processed (see _execute_actions)
         c.ens(f"forall[Node](lambda n: (n in {A}) == (n in old({A}) and not (n in states_to_exit)))", label="removes-exactly-the-listed-states")
         c.ens(APPENDED, label="ghost:queue-append-only")
-        c.may_raise("Exception", ensures=[f"forall[Node](lambda n: implies(n in {A}, n in old({A})))", "ghost:" + APPENDED])
-        INV = f"forall[Node](lambda n: (n in {A}) == (n in old({A}) and not exists[int](lambda k: 0 <= k and k < _i and states_to_exit[k] == n)))"
-        c.loop(0, inv=[INV, APPENDED], body="BaseInterpreter._exit_states")
-        c.loop(0, inv=[f"set_eq({A}, old({A}))", APPENDED], body="SyncInterpreter._exit_states")     # first pass only cancels timers
-        c.loop(1, inv=[INV, APPENDED], body="SyncInterpreter._exit_states")
+        c.ens(KEEP[0], label="status-moves-along-allowed-edges")
+        c.may_raise("Exception", ensures=[f"forall[Node](lambda n: implies(n in {A}, n in old({A})))", "ghost:" + APPENDED, KEEP[0]])
+
+    @w.contract(BI + "_exit_states", props=["C01", "C03"])
+    def _(c):
+        exit_states_clauses(c)
+        c.loop(0, inv=[INV_X, APPENDED, KEEP[0]])
+
+    @w.contract(SI + "_exit_states", props=["C01", "C03", "C08"])
+    def _(c):
+        exit_states_clauses(c)
+        OWNED_J = "(k == states_to_exit[j].id or k.startswith(states_to_exit[j].id + '::'))"
+        # C08: leaving a state cancels its `after` timers BEFORE any exit action runs, and no action re-arms one
+        c.label_props = {"no-after-timer-of-an-exited-state-survives": ["C08"], "every-timer-of-an-exited-state-is-cancelled": ["C08"]}
+        c.ens(f"forall[str](lambda k: implies(k in {AE_}, k in old({AE_}) and not exists[int](lambda j: 0 <= j and j < len(states_to_exit) and {OWNED_J})))",
+              label="ghost:no-after-timer-of-an-exited-state-survives")
+        c.ens(f"forall[str](lambda k: implies(k in old({AE_}) and exists[int](lambda j: 0 <= j and j < len(states_to_exit) and {OWNED_J}), old({AE_})[k].is_set))",
+              label="ghost:every-timer-of-an-exited-state-is-cancelled")
+        T0 = f"forall[str](lambda k: implies(k in {AE_}, k in old({AE_}) and {AE_}[k] == old({AE_})[k] and not exists[int](lambda j: 0 <= j and j < _i and {OWNED_J})))"
+        T0b = f"forall[str](lambda k: implies(k in old({AE_}) and not exists[int](lambda j: 0 <= j and j < _i and {OWNED_J}), k in {AE_}))"
+        T1 = f"forall[str](lambda k: implies(k in {AE_}, k in old({AE_}) and not exists[int](lambda j: 0 <= j and j < len(states_to_exit) and {OWNED_J})))"
+        SET = f"forall[str](lambda k: implies(k in old({AE_}) and exists[int](lambda j: 0 <= j and j < _i and {OWNED_J}), old({AE_})[k].is_set))"
+        SET1 = f"forall[str](lambda k: implies(k in old({AE_}) and exists[int](lambda j: 0 <= j and j < len(states_to_exit) and {OWNED_J}), old({AE_})[k].is_set))"
+        MONO = "forall[Flag](lambda f: implies(old(f.is_set), f.is_set))"
+        c.loop(0, inv=[f"set_eq({A}, old({A}))", APPENDED, T0, T0b, SET, MONO, KEEP[0]])     # first pass only cancels timers
+        c.loop(1, inv=[INV_X, APPENDED, T1, SET1, MONO, KEEP[0]])
